@@ -1,1 +1,46 @@
-From WT Require Import Base.Wrap.
+(** * C07 — Layout validation: exactly the well-formed archive lists are accepted.
+    [wf_layout] (Spec/WfLayout.v) is the property's rule list over unbounded integers. *)
+From WT Require Import Base.Wrap Base.ListX Base.Bytes Model.Time Model.Ring Model.Codec Model.Text
+  Spec.WfLayout Proofs.CodecProofs Proofs.LayoutProofs Proofs.EntryProofs.
+
+(** the validation used by every entry point (32-bit arithmetic of the code, with its explicit
+    range checks) accepts a list with freshly filled offsets iff the list is well formed *)
+Theorem C07_validate_iff_wf l : Forall fields_ok l ->
+  (validate (fill_offset l) = true <-> wf_layout (pairs l)).
+Proof. exact (validate_fill_offset_iff l). Qed.
+Print Assumptions C07_validate_iff_wf.
+
+(** Create / NewHeader *)
+Theorem C07_new_header_accepts_iff m xff l :
+  (exists h, new_header m xff l = Some h) <->
+  valid_method m = true /\ valid_xff xff = true /\ validate (fill_offset l) = true.
+Proof. exact (new_header_accepts_iff m xff l). Qed.
+Print Assumptions C07_new_header_accepts_iff.
+
+(** decoding a header (Open, the HTTP client): same rules, and the stored offsets must be the
+    contiguous ones *)
+Theorem C07_decode_accepts_iff h r :
+  0 <= h_method h < 2^32 -> - 2^31 <= h_maxret h < 2^31 -> 0 <= h_xff h < 2^32 ->
+  h_count h = zlen (h_arcs h) -> h_count h < 2^32 -> Forall wf_ainfo (h_arcs h) ->
+  (dec_header (enc_header h ++ r) = Ok h r <->
+   valid_method (h_method h) = true /\ valid_xff (h_xff h) = true /\ h_count h * 12 <= MaxInt32 /\
+   validate (h_arcs h) = true /\ fill_offset (h_arcs h) = h_arcs h).
+Proof. exact (dec_header_accepts_iff h r). Qed.
+Print Assumptions C07_decode_accepts_iff.
+
+(** parsing a retention string *)
+Theorem C07_parse_validated s l : parse_archive_info_list s = Some l ->
+  validate l = true /\ fill_offset l = l.
+Proof. exact (parse_list_validated s l). Qed.
+Print Assumptions C07_parse_validated.
+
+(** anything accepted round-trips through the header encoding *)
+Theorem C07_header_roundtrip h r : wf_header h -> dec_header (enc_header h ++ r) = Ok h r.
+Proof. exact (header_roundtrip h r). Qed.
+Print Assumptions C07_header_roundtrip.
+
+(** a well-formed list has at most 31 archives (steps at least double), so the decoder's
+    bound on the archive count never rejects one *)
+Theorem C07_wf_layout_short l : wf_layout l -> zlen l <= 31.
+Proof. exact (wf_layout_short l). Qed.
+Print Assumptions C07_wf_layout_short.
